@@ -31,7 +31,9 @@ class Observer(ArbModel):
         else:
             # many initiators: the full control product with one token phase (state exploration, control
             # isolation, no pre-emption) + every token phase with "all request" / "one requests" controls
-            self._letters = [self.letter(c, 2, r, j) for c in ctl for r in resp[:2] for j in rej]
+            quiet, loud = resp[0], resp[-1]
+            ack_only = tuple(1 if k == 0 else 0 for k in range(4))
+            self._letters = [self.letter(c, 2, r, j) for c in ctl for r in (quiet, ack_only, loud) for j in rej]
             some = [c for c in ctl if sum(x[0] for x in c) in (1, self.n) and all(x[1] == x[0] for x in c)]
             self._letters += [self.letter(c, p, r, j) for c in some for p in range(nph) for r in resp for j in rej]
         self.n_letters = len(self._letters)
@@ -59,7 +61,9 @@ class Observer(ArbModel):
         for k in range(self.n):
             f = self.ifeat[k]
             if k == owner:
-                e = dict(ack=t_ack, dat_r=letter[ii["t_dat_r"]])
+                e = dict(ack=t_ack)
+                if t_ack:       # read data is only meaningful together with the acknowledge
+                    e["dat_r"] = letter[ii["t_dat_r"]]
                 if "err" in f:
                     e["err"] = letter[ii["t_err"]] if "err" in self.afeat else 0
                 if "rty" in f:
